@@ -6,6 +6,7 @@
 import HSModel.Spec
 import HSModel.Config
 import HSModel.Cli
+import HSModel.Conc
 open HS
 
 def decStr (s : String) : Option Str :=
@@ -324,6 +325,23 @@ def handle (st : DState) (line : String) : DState × List String :=
     | some n => (st, [if isSpace (Char.ofNat n) then "1" else "0"])
     | none => (st, ["bad-op"])
   | ["sstate"] => (st, absLines st.a ++ ["."])
+  | "conc" :: sched :: r =>
+    -- conc <i.j.k…|-> call … ;; call … ;; …
+    let callsStr := (" ".intercalate r).splitOn " ;; "
+    let calls := callsStr.mapM fun cs => decCall ((cs.splitOn " ").filter (· ≠ ""))
+    let sch : Option (List Nat) := if sched == "-" then some [] else (sched.splitOn ".").mapM (·.toNat?)
+    match calls, sch with
+    | some calls, some sch =>
+      let c0 : Conf := { w := { st.w with log := [], fault := none },
+                         ts := calls.map fun c => TState.fresh (c.prog st.cfg st.tabs.oracle) }
+      let (c1, used) := runSchedule 100000 c0 sch 0
+      let res := c1.ts.map fun t => match t with
+        | .finished r => showResult st.cfg r
+        | .fresh _ => "pending fresh"
+        | .at e _ => if (TState.at e (fun _ => .ret (.error .modelBug))).enabled c1.w then "pending ready" else "pending blocked"
+      ({ st with w := c1.w },
+        res ++ [s!"used {used}", s!"finished {c1.allFinished}", s!"anyEnabled {c1.anyEnabled}", "."])
+    | _, _ => (st, ["bad-op"])
   | "snaps" :: r =>
     match decCall r with
     | none => (st, ["bad-op"])
